@@ -16,12 +16,12 @@ VAL_TOL = 1e-7     # relative agreement with the reference multiplier
 
 def plan(tier):
     n = 320 if tier == 'quick' else 12000
-    return dict(suite_monitor=True, n_cases=n, shards=16, min_nontrivial=n // 3, min_hits={'lb': n // 2},
+    return dict(suite_monitor=True, n_cases=n, shards=16, min_nontrivial=n // 3, min_hits={'lb': n // 2}, min_tags={'src:shell_method': n // 40, 'src:panel_method': n // 40, 'src:assembly_free': n // 40, 'src:bay_free': n // 80},
                 watchdog_s=1500 if tier == 'quick' else 7200,
                 rule='random symmetric pairs (K PD on a random active subset, others null; KG negative semidefinite / '
                      'indefinite / low-rank / banded, scaled sub-critical by a random margin 1.05..50), sizes 5..%d, '
                      '1..25 requested eigenvalues, both solver switches; plus matrices of generated Panels through '
-                     'analysis.lb and Panel.lb; non-trivial = the call returned and at least one positive reference '
+                     'analysis.lb and Panel.lb, matrices of generated panel assemblies and stiffened bays through analysis.lb, and generated shells through ConeCyl.lb (its own copy of the solver; plain and combined load cases 1..3); non-trivial = the call returned and at least one positive reference '
                      'multiplier exists; distinct = hash of the generation parameters' % (150 if tier == 'quick' else 400),
                 assumptions=['backward-error tolerance 1e-8, value agreement 1e-7 relative',
                              'ordering clause judged on the first min(returned pairs, #positive reference multipliers) values'])
@@ -32,7 +32,7 @@ def setup(tier):
     monitors.install_recorder(LBM, 'lb')
 
 
-def judge_pairs(c, K, G, ev, vecs, label, k_req):
+def judge_pairs(c, K, G, ev, vecs, label, k_req, val_scale=1.0):
     Kd, Gd = eig.dense(K), eig.dense(G)
     n = Kd.shape[0]
     act = eig.active_set(Kd)
@@ -59,6 +59,7 @@ def judge_pairs(c, K, G, ev, vecs, label, k_req):
     null = np.setdiff1d(np.arange(n), act)
     c.expect(label + ' eigvecs shape', vecs.shape[0] == n, 'rows %d != %d' % (vecs.shape[0], n))
     worst = 0.0
+    fwd = np.zeros(npairs)      # first-order forward bound of each returned multiplier: backward error x eigenvalue condition number
     for i in range(npairs):
         lam = ev[i]
         v = vecs[:, i]
@@ -67,6 +68,11 @@ def judge_pairs(c, K, G, ev, vecs, label, k_req):
             continue
         be = eig.backward_error(Kd, Gd, float(np.real(lam)), np.real(v))
         worst = max(worst, be)
+        vr = np.real(v); lr = float(np.real(lam))
+        if np.isfinite(lr) and lr != 0 and vr.any():
+            m_ = abs(1.0 / lr)
+            kap = (nG + m_ * nK) * float(vr @ vr) / (m_ * float(vr @ Kd @ vr) + 1e-300)
+            fwd[i] = 2 * be * kap + 100 * n * EPS * kap
         c.judge(label + ' residual (K+lam*KG)v', be, res_tol, data={'i': i, 'lam': lam})
         if null.size:
             c.judge(label + ' zero on null dofs', np.abs(v[null]).max(), 0.0)
@@ -78,6 +84,10 @@ def judge_pairs(c, K, G, ev, vecs, label, k_req):
         # clustered reference values: compare as sorted sets with relative tolerance
         # forward accuracy of both the reference and the solver: eps*cond(K) on the largest |mu|
         vt = np.maximum(VAL_TOL, 1e4 * EPS * np.abs(ref)) + 100 * EPS * c.info['condK'] * np.abs(ref) / np.abs(ref).min()
+        vt = vt * val_scale
+        # "to solver precision" for a value: the pair passed the residual clause with backward error be; perturbation theory of
+        # the definite pencil turns that into be * kappa_i on the multiplier (kappa up to 1e6 with penalty-joined assemblies)
+        vt = np.maximum(vt, fwd[:nj])
         err = np.abs(got - ref) / np.abs(ref) / vt * VAL_TOL
         c.judge(label + ' smallest positive multipliers ascending', err.max() if nj else 0.0, VAL_TOL,
                 data={'got': got, 'ref': ref})
@@ -138,9 +148,86 @@ def panel_pair(rng, tier):
     return p, desc
 
 
+def case_shell(rng, tier):
+    """ConeCyl.lb: the shell's own copy of the solver (axial compression, optional combined load cases)"""
+    d = gen.shell_desc(rng, mmax=4 if tier == 'quick' else 6, nmax=4)
+    k = int(rng.integers(1, 8))
+    clc = [None, None, 1, 2, 3][int(rng.integers(0, 5))]
+    Fc = float(10 ** rng.uniform(0, 2))
+    P = float(rng.choice([0.0, -1.0, 1.0]) * 10 ** rng.uniform(-3, -1)) if clc else 0.0
+    T = float(rng.choice([0.0, -1.0, 1.0]) * 10 ** rng.uniform(-1, 1)) if clc else 0.0
+    if clc == 3 and T == 0.0:
+        T = 1.0
+    desc = dict(src='shell', shell=d, k=k, combined_load_case=clc, Fc=Fc, P=P, T=T)
+    c = Case(desc)
+    c.tag('src:shell_method', 'model:' + d['model'], 'geom:cone' if d['alphadeg'] else 'geom:cylinder', 'clc:%s' % clc)
+    import warnings
+    try:
+        cc = gen.build_shell(d)
+        cc.Fc = Fc; cc.P = P; cc.T = T
+        cc.num_eigvalues = k
+        with warnings.catch_warnings():
+            warnings.simplefilter('ignore')
+            cc.lb(combined_load_case=clc)
+    except Exception as e:
+        return c.reject('%s in ConeCyl.lb: %s' % (type(e).__name__, str(e)[:100]))
+    c.hit('ConeCyl.lb')
+    num0 = __import__('compmech.conecyl.modelDB', fromlist=['db']).db[d['model']]['num0']
+    k0 = eig.dense(cc.k0)
+    if clc == 1:
+        K, G = k0 + eig.dense(cc.kG0_T), eig.dense(cc.kG0_Fc)
+    elif clc == 2:
+        K, G = k0 + eig.dense(cc.kG0_P), eig.dense(cc.kG0_Fc)
+    elif clc == 3:
+        K, G = k0 + eig.dense(cc.kG0_Fc), eig.dense(cc.kG0_T)
+    else:
+        K, G = k0, eig.dense(cc.kG0)
+    K = K[num0:, num0:]; G = G[num0:, num0:]
+    ev = np.asarray(cc.eigvals); vecs = np.asarray(cc.eigvecs)
+    c.expect('shell_method modes carry zeros on the base-function amplitudes', not vecs[:num0].any())
+    # value tolerance 1e-6: the shell matrices are badly scaled (membrane vs bending amplitudes) and the multipliers of the
+    # torsion cases come in close pairs; calibrated on the unchanged tree (worst 2.5e-7 with the residual clause at 1e-4 of
+    # its tolerance) - a missing or misplaced multiplier is an O(1) difference
+    lam_pos, act = judge_pairs(c, K, G, ev, vecs[num0:], 'shell_method', k, val_scale=10.0)
+    c.nontrivial = lam_pos.size > 0
+    return c
+
+
+def case_structure(rng, tier, which):
+    """matrices of a generated panel assembly / stiffened bay through analysis.lb (what their callers do)"""
+    from compmech.analysis import lb
+    sparse = bool(rng.random() < 0.5)
+    k = int(rng.integers(1, 8))
+    try:
+        K, G, desc = gen.structure_matrices(rng, which, 'kG0')
+    except Exception as e:
+        c = Case({'src': which})
+        return c.reject('%s building %s: %s' % (type(e).__name__, which, str(e)[:100]))
+    k = min(k, max(1, len(gen.active_dofs(G)) - 2))      # the solvers refuse k >= number of amplitudes KG acts on
+    desc.update(k=k, sparse_solver=sparse)
+    c = Case(desc)
+    c.tag('src:%s_free' % which, 'sparse' if sparse else 'dense')
+    monitors.drain('lb')
+    try:
+        lb(K, G, tol=0, sparse_solver=sparse, silent=True, num_eigvalues=k)
+    except Exception as e:
+        return c.reject('%s in lb on %s matrices: %s' % (type(e).__name__, which, str(e)[:100]))
+    obs = monitors.drain('lb')
+    c.hit('lb', len(obs))
+    ev, vecs = obs[-1]['result']
+    lam_pos, act = judge_pairs(c, K, G, ev, vecs, which + '_free', k)
+    c.nontrivial = lam_pos.size > 0
+    return c
+
+
 def run_case(rng, tier, idx):
     from compmech.analysis import lb
-    mode = 'random' if rng.random() < 0.8 else ('panel_free' if rng.random() < 0.5 else 'panel_method')
+    # 70% random pairs; the package sources take turns (deterministic in the case index, so every source is covered)
+    mode = 'random' if idx % 10 < 7 else ['panel_free', 'panel_method', 'shell_method', 'assembly_free', 'bay_free'][(idx // 10 * 3 + idx % 10 - 7) % 5]
+    if mode == 'shell_method':
+        return case_shell(rng, tier)
+    if mode in ('assembly_free', 'bay_free'):
+        return case_structure(rng, tier, mode.split('_')[0])
     sparse = bool(rng.random() < 0.5)
     if mode == 'random':
         K, G, desc, na = random_pair(rng, tier)
